@@ -1,6 +1,7 @@
 // `vsim q <in.jsonl> <out.jsonl>`: pure-function queries against the real oomd API (C12, C16).
 // One process handles a whole batch; every answer is flushed, so after a crash the first
 // unanswered query is the culprit.
+#include <unordered_set>
 #include <cxxabi.h>
 #include <string.h>
 #include <unistd.h>
@@ -121,6 +122,38 @@ static Json::Value answer(const Json::Value& q) {
     if (!p.isRoot()) {
       out["parent"] = p.getParent().absolutePath();
     }
+  } else if (kind == "pathseq") {
+    // a derivation history on ONE object: after every step the object must be indistinguishable (==, hash, container
+    // lookup) from a CgroupPath constructed afresh from its own printed form
+    std::string fs = q["fs"].asString();
+    Oomd::CgroupPath cur(fs, q["p"].asString());
+    std::unordered_set<Oomd::CgroupPath> seen;
+    Json::Value steps(Json::arrayValue);
+    for (const auto& opv : q["ops"]) {
+      std::string op = opv.asString();
+      if (op == "h") {
+        seen.insert(cur);
+      } else if (op == "p") {
+        if (!cur.isRoot()) {
+          cur = cur.getParent();
+        }
+      } else if (op == "copy") {
+        Oomd::CgroupPath tmp(cur);
+        cur = tmp;
+      } else if (op.rfind("c:", 0) == 0) {
+        cur = cur.getChild(op.substr(2));
+      }
+      Oomd::CgroupPath fresh(fs, cur.relativePath());
+      Json::Value o;
+      o["abs"] = cur.absolutePath();
+      o["rel"] = cur.relativePath();
+      o["eq"] = (cur == fresh) && !(cur != fresh);
+      o["hash_eq"] = std::hash<Oomd::CgroupPath>{}(cur) == std::hash<Oomd::CgroupPath>{}(fresh);
+      o["found"] = (seen.count(cur) > 0) == (seen.count(fresh) > 0);
+      steps.append(o);
+    }
+    out["steps"] = steps;
+    out["distinct"] = (Json::UInt64)seen.size();
   } else if (kind == "eq") {
     Oomd::CgroupPath a(q["fs"].asString(), q["a"].asString()), b(q.get("fs2", q["fs"]).asString(), q["b"].asString());
     out["eq"] = a == b;
